@@ -17,6 +17,7 @@
 from __future__ import annotations
 
 from collections import deque
+from itertools import product
 
 from ..lang import Atomic, Constant, Operator, Predicate, Predicated
 from ..models import ValueCPL
@@ -74,23 +75,27 @@ class Model(LogicType.Model[Meta.values]):
 
     def _agument_extension_with_identicals(self, pred: Predicate, w):
         interp = self.frames[w].predicates[pred]
-        for c in self.constants:
-            identicals = self._get_identicals(c, w)
-            to_add = set()
-            for params in interp.having('T'):
-                if c in params:
-                    for new_c in identicals:
-                        to_add.add(substitute(params, c, new_c))
-            for params in to_add:
-                interp[params] = 'T'
+        # Every constant's identicals, including itself.
+        classes = {c: self._get_identicals(c, w) | {c} for c in self.constants}
+        to_add = set()
+        for params in interp.having('T'):
+            # Replace each position independently by any of its identicals.
+            to_add.update(product(*(classes[c] for c in params)))
+        for params in to_add:
+            interp[params] = 'T'
 
     def _get_identicals(self, c: Constant, w=0) -> set[Constant]:
+        """The constants identical to `c` at `w`, excluding `c` itself: the
+        symmetric and transitive closure of the true identity sentences."""
         interp = self.frames[w].predicates[Predicate.Identity]
-        identicals = set()
-        update = identicals.update
-        for params in interp.having('T'):
-            if c in params:
-                update(params)
+        pairs = tuple(interp.having('T'))
+        identicals = {c}
+        size = 0
+        while size != len(identicals):
+            size = len(identicals)
+            for params in pairs:
+                if not identicals.isdisjoint(params):
+                    identicals.update(params)
         identicals.discard(c)
         return identicals
 
